@@ -91,7 +91,10 @@ func runC15(cfg *config, res *monitor.Result) {
 	}
 	lazyproto.VerifHook.Store(&hook)
 	def := c14Def()
-	type shape struct{ v, s, n, n4 int; empty bool }
+	type shape struct {
+		v, s, n, n4 int
+		empty       bool
+	}
 	shapes := []shape{{1, 1, 1, 0, false}, {2, 0, 3, 1, false}, {5, 2, 9, 0, true}, {9, 5, 0, 3, false}, {0, 1, 1, 1, true}, {3, 4, 4, 2, false}}
 	configs := []struct {
 		g, procs int
